@@ -9,8 +9,8 @@ package main
 //
 // Accepted subset (anything else is REJECTED, never guessed):
 //   - parameters / receiver: integers, []byte, [N]byte, io.Writer, io.Reader, a pointer to a
-//     struct whose fields are read (each field read becomes one parameter `recv_Field`, in order
-//     of first use)
+//     struct whose fields are read (each field read becomes one parameter `recv_Field`, in the
+//     declaration order of the struct)
 //   - results: integers, error (a string, "" = nil), *Struct (Option of a generated structure
 //     holding the fields of supported type; the others are listed in a comment and may not be
 //     touched), [N]byte
@@ -41,6 +41,7 @@ import (
 	"go/constant"
 	"go/token"
 	"go/types"
+	"sort"
 	"strings"
 
 	"golang.org/x/tools/go/packages"
@@ -95,6 +96,26 @@ type byTrans struct {
 	resLen   []int
 	structs  map[string]string // Go struct name -> Lean structure name (emitted)
 	aux      []string
+	fieldPs  map[string][]byFieldParam // pointer parameter -> fields read (rendered in declaration order of the struct)
+}
+
+type byFieldParam struct {
+	idx      int
+	name, ty string
+}
+
+// bindField records the parameter standing for field `sel` of pointer parameter root
+func (t *byTrans) bindField(root string, sel *ast.SelectorExpr, name, ty string) error {
+	s := t.p.TypesInfo.Selections[sel]
+	if s == nil || len(s.Index()) != 1 {
+		return fmt.Errorf("unsupported (embedded?) field %s.%s", root, sel.Sel.Name)
+	}
+	if t.pseen[name] {
+		return nil
+	}
+	t.pseen[name] = true
+	t.fieldPs[root] = append(t.fieldPs[root], byFieldParam{s.Index()[0], name, ty})
+	return nil
 }
 
 func (t *byTrans) fresh(base string) string {
@@ -235,7 +256,9 @@ func (t *byTrans) bytesBase(e ast.Expr, env *byEnv) (string, *byVar, error) {
 				if sl >= 0 {
 					cm = fmt.Sprintf("Bytes /- [%d]byte -/", sl)
 				}
-				t.bindParam(nm, cm)
+				if err := t.bindField(id.Name, x, nm, cm); err != nil {
+					return "", nil, err
+				}
 				v := &byVar{byVal: byVal{s: nm, k: "bytes", slen: sl, base: key}}
 				env.vars[key] = v
 				return key, v, nil
@@ -394,7 +417,9 @@ func (t *byTrans) expr(e ast.Expr, env *byEnv) (byVal, error) {
 					return byVal{}, fmt.Errorf("field %s: unsupported kind %s", key, k)
 				}
 				nm := id.Name + "_" + x.Sel.Name
-				t.bindParam(nm, byLeanType(k, lt))
+				if err := t.bindField(id.Name, x, nm, byLeanType(k, lt)); err != nil {
+					return byVal{}, err
+				}
 				v := &byVar{byVal: byVal{s: nm, k: k, lt: lt}}
 				env.vars[key] = v
 				return v.byVal, nil
@@ -1139,7 +1164,7 @@ func kindBytes(c *Ctx, it Item) (string, error) {
 		return "", fmt.Errorf("bytes: %s has no body", it.Str("func"))
 	}
 	t := &byTrans{p: p, fset: p.Fset, name: it.Str("name"), pseen: map[string]bool{}, ptrRoots: map[string]bool{},
-		structs: map[string]string{}}
+		structs: map[string]string{}, fieldPs: map[string][]byFieldParam{}}
 	env := &byEnv{vars: map[string]*byVar{}, structs: map[string]*types.Named{}}
 	var fields []*ast.Field
 	if fd.Recv != nil {
@@ -1155,6 +1180,7 @@ func kindBytes(c *Ctx, it Item) (string, error) {
 			if ptr, ok := ty.(*types.Pointer); ok {
 				if _, ok := ptr.Elem().Underlying().(*types.Struct); ok {
 					t.ptrRoots[n.Name] = true
+					t.params = append(t.params, "@fields:"+n.Name)
 					continue
 				}
 			}
@@ -1230,6 +1256,21 @@ func kindBytes(c *Ctx, it Item) (string, error) {
 	if err != nil {
 		return "", fmt.Errorf("bytes %s: %v", it.Str("func"), err)
 	}
+	// the fields read off a pointer parameter, in the declaration order of its struct (stable
+	// under reordering of the statements that read them)
+	var params []string
+	for _, p := range t.params {
+		if !strings.HasPrefix(p, "@fields:") {
+			params = append(params, p)
+			continue
+		}
+		fs := t.fieldPs[strings.TrimPrefix(p, "@fields:")]
+		sort.Slice(fs, func(i, j int) bool { return fs[i].idx < fs[j].idx })
+		for _, f := range fs {
+			params = append(params, fmt.Sprintf("(%s : %s)", f.name, f.ty))
+		}
+	}
+	t.params = params
 	var sb strings.Builder
 	for _, a := range t.aux {
 		sb.WriteString(a + "\n")
